@@ -74,7 +74,8 @@ def extract(nng, arch, res):
         for cmd in sg.high_level_command_stream:
             if isinstance(cmd, DMA):
                 it, ot = cmd.in_tensor, cmd.out_tensor
-                d = {"type": "dma", "name": cmd.ps.name, "in": {"sid": sid(it), "addr": int(it.address), "name": it.name},
+                d = {"type": "dma", "name": cmd.ps.name, "in": {"sid": sid(it), "addr": int(it.address), "name": it.name,
+                                                                "bytes": int(it.elements() * it.dtype.size_in_bytes())},
                      "out": {"sid": sid(ot), "addr": int(ot.address), "name": ot.name}}
                 if it.purpose == TensorPurpose.Weights:
                     d["mode"] = "copy"
